@@ -7,7 +7,7 @@ from contracts import specs as S
 from bounded.common import outcome
 from bounded import gen
 
-RULE = ("generated graphs: seeded order-2 masks (quick 300 / thorough 4000) and order-3 masks (quick 30 / thorough 300) x thresholds "
+RULE = ("generated graphs: seeded order-2 masks (quick 800 / thorough 4000) and order-3 masks (quick 60 / thorough 300) x thresholds "
         "1..4 through connect_coding_graph, + the built-in filter grid, + complete graphs k = 1..3; every retained start (<= 8 quick) x "
         "seeded messages (1..64 bits) x {normal, fast}: terminates (10 s watchdog) with len(strand) <= L*|V|, no out-degree error, "
         "strand is a walk, last step branching, product of earlier out-degrees <= message value, <= L nt on t >= 2 graphs, "
@@ -17,7 +17,7 @@ CHUNK = 4
 
 
 def cases(tier, rng):
-    for k, cnt in ((2, 300 if tier == "quick" else 4000), (3, 30 if tier == "quick" else 300)):
+    for k, cnt in ((2, 800 if tier == "quick" else 4000), (3, 60 if tier == "quick" else 300)):
         for _ in range(cnt):
             dens = rng.choice((0.4, 0.6, 0.8, 0.95))
             m = sum(1 << i for i in range(4 ** k) if rng.random() < dens)
